@@ -115,11 +115,20 @@ def _hash_file(h, path):
         h.update(b"<missing>")
 
 
-def source_hash(pkg, repo=None):
+VARIANTS = {
+    "": "",
+    # release-like cfg: debug assertions (and with them cfg(debug_assertions) code such as the
+    # events' backtrace mutex and the slab's debug pointer checks) compiled out
+    "nodebug": " -C debug-assertions=off -C overflow-checks=off",
+}
+
+
+def source_hash(pkg, repo=None, variant=""):
     repo = repo or REPO
     meta = metadata(repo)
     h = hashlib.sha256()
-    h.update(RUSTFLAGS.encode())
+    h.update((RUSTFLAGS + VARIANTS[variant]).encode())
+    h.update(os.path.abspath(repo).encode() if os.path.abspath(repo) != "/repo" else b"")
     _hash_file(h, DRIVER)
     _hash_file(h, os.path.join(repo, "Cargo.toml"))
     _hash_file(h, os.path.join(repo, "Cargo.lock"))
@@ -153,10 +162,10 @@ class Lock:
         self.f.close()
 
 
-def generate(pkg, repo=None, target=None, facts_dir=None, log=None):
+def generate(pkg, repo=None, target=None, facts_dir=None, log=None, variant=""):
     """Run the driver for one package; returns path of the fact file."""
     repo = repo or REPO
-    target = target or TARGET
+    target = target or (TARGET if os.path.abspath(repo) == "/repo" else os.path.join(CACHE, "target_scratch"))
     facts_dir = facts_dir or FACTS
     meta = metadata(repo)
     if pkg not in meta:
@@ -173,6 +182,7 @@ def generate(pkg, repo=None, target=None, facts_dir=None, log=None):
     for d in glob.glob(os.path.join(target, "debug", ".fingerprint", pkg + "-*")):
         shutil.rmtree(d, ignore_errors=True)
     env = base_env()
+    env["RUSTFLAGS"] = RUSTFLAGS + VARIANTS[variant]
     env["RUSTC_WORKSPACE_WRAPPER"] = DRIVER
     env["CARGO_TARGET_DIR"] = target
     env["FACTGEN_OUT"] = raw_dir
@@ -190,11 +200,11 @@ def generate(pkg, repo=None, target=None, facts_dir=None, log=None):
     return raw
 
 
-def fact_file(pkg, repo=None, log=None):
+def fact_file(pkg, repo=None, log=None, variant=""):
     """Return the path of an up-to-date fact file for pkg, generating if needed."""
     repo = repo or REPO
     ensure_driver()
-    h = source_hash(pkg, repo)
+    h = source_hash(pkg, repo, variant)
     os.makedirs(FACTS, exist_ok=True)
     out = os.path.join(FACTS, f"{pkg}.{h}.json")
     if os.path.exists(out):
@@ -202,10 +212,10 @@ def fact_file(pkg, repo=None, log=None):
     with Lock(os.path.join(CACHE, "lock")):
         if os.path.exists(out):
             return out, False
-        raw = generate(pkg, repo, log=log)
+        raw = generate(pkg, repo, log=log, variant=variant)
         # keep a few recent fact files of this package (content-addressed; a reverted edit is a cache hit)
         olds = sorted(glob.glob(os.path.join(FACTS, f"{pkg}.*.json")), key=os.path.getmtime, reverse=True)
-        for old in olds[3:]:
+        for old in olds[8:]:
             os.remove(old)
         os.replace(raw, out)
     return out, True
@@ -214,8 +224,8 @@ def fact_file(pkg, repo=None, log=None):
 _crate_re = re.compile(r"\bcrate::")
 
 
-def load(pkg, repo=None, log=None):
-    path, fresh = fact_file(pkg, repo, log)
+def load(pkg, repo=None, log=None, variant=""):
+    path, fresh = fact_file(pkg, repo, log, variant)
     with open(path, "r") as f:
         text = f.read()
     name = metadata(repo)[pkg]["lib"]
